@@ -79,7 +79,15 @@ class Opts(dict):
                 return key
             return '%s=%s' % (key, val)
 
-        return ', '.join([fmt(key, val) for key, val in self.items()])
+        parts = []
+        for key, val in self.items():
+            if key == 'def' and isinstance(val, list):
+                # One def=... entry per definition so that the string
+                # can be parsed again.
+                parts.extend([fmt(key, val1) for val1 in val])
+            else:
+                parts.append(fmt(key, val))
+        return ', '.join(parts)
 
     def copy(self):
 
